@@ -2500,7 +2500,9 @@ def _compute_arguments_dict_matching_score(
     elif args != ref_args:
         return 0.0
 
-    return score
+    # Every mismatch has returned above: a score of zero would read as "no match", so very many
+    # unmentioned elements (0.9 ** n) must not make it underflow
+    return max(score, 1e-300)
 
 
 def get_event_name_from_element(
